@@ -2,6 +2,15 @@
 """Regenerates MANIFEST.json from the table below (kept in one place so it stays valid)."""
 import json, os
 ROOT = os.path.dirname(os.path.dirname(os.path.abspath(__file__)))
+TECH_EXTRA = {
+    "C01": "; linear-algebra lemmas LA1b/LA2/LA3d and the slack-enumeration induction as lemma units / Lean theorems; one open known finding (integration solver) reported as KNOWN-FINDING",
+    "C04": "; loop invariants over the real triplet / slack loops, ghost functions with an induction lemma unit (any number of rows)",
+    "C05": "; plus IEEE float64 re-posing of the projection (z3 FP) and a monotone-rounding model for single precision",
+    "C06": "; implicit obligations (assert, division, domain, index, shape, format) generated from every executed construct",
+    "C08": "; composition of the loop contracts into the prefix statement machine-checked in Lean (lean/Prefix.lean, every run)",
+    "C12": "; loop invariant with ghost history; triangle lemma LA5 in Lean (thorough tier)",
+    "C14": "; entrywise assembly proofs incl. raw-CSR row surgery (loop invariant over data/indices/indptr); block-elimination lemma LA4 in Lean (thorough tier)",
+}
 TECH = "contract-based deductive verification: VCs generated from the real AST by /verif/pyvc (symbolic execution / weakest-precondition style), discharged by z3 (cvc5 fallback)"
 CLAIMS = {
  "C16": ("post-conditions of every penalty policy's update/initial (next_rho >= rho > 0, Constant unchanged, DualNorm bounds) proved for all inputs over the reals from the real source; solve-loop invariant on rho",
@@ -22,7 +31,7 @@ def main():
             text, note, ref = claims[p]
             checks.append({"property_id": p, "quick_cmd": f"./check {p} --tier quick", "thorough_cmd": f"./check {p} --tier thorough",
                            "evidence_file": f"/verif/evidence/{p}.json", "replay_cmd_template": "./check --replay {path}", "engine": "pyvc",
-                           "level_claimed": {"category": "proof", "text": text, "design_ref": ref}, "level_note": note, "technique": TECH})
+                           "level_claimed": {"category": "proof", "text": text, "design_ref": ref}, "level_note": note, "technique": TECH + TECH_EXTRA.get(pid, "")})
     nal = [{"property_id": p, "reason": na.get(p, "no check built yet in this round (the design in DESIGN.md §4 applies; not claimed until the obligations are generated and discharged)")} for p in props if p not in claims]
     man = {"version": 1, "setup_cmd": "./bin/setup.sh",
            "hooks": {"guard": "PYGRADFLOW_VERIF", "enable": "no hooks: contracts are sidecar files under /verif/contracts, the verifier reads /repo's source", "baseline_off_cmd": "cd /repo && /venv/bin/python -m pytest -ra -q -p no:cacheprovider --timeout=900 --continue-on-collection-errors", "source_commits": [], "add_only": True},
